@@ -142,8 +142,9 @@ impl InnerInMemory {
             let next_domain_name = nsec.next_domain_name();
             // the search name is less than the next NSEC record
             if *name < next_domain_name.into() ||
-                // this is the last record, and wraps to the beginning of the zone
-                next_domain_name < rr_set.name()
+                // this is the last record, and wraps to the beginning of the zone (in a zone that
+                // consists of its origin only it is also the first, and points to itself)
+                next_domain_name <= rr_set.name()
             {
                 return Some(rr_set.clone());
             }
